@@ -724,6 +724,10 @@ class _Loader(object):
             raise XSLTUnsupported('version=%r (forwards-compatible processing)' % at['version'])
         if 'extension-element-prefixes' in at:
             raise XSLTUnsupported('extension-element-prefixes')
+        nsm = _nsmap(top)
+        for t in _tokens(at.get('exclude-result-prefixes', '')):
+            if (t == '#default' and '' not in nsm) or (t != '#default' and (t not in nsm or t == '')):
+                raise XSLTStaticError('%s: exclude-result-prefixes: no namespace bound to %r' % (uri, t))
         return doc, top
 
     def load_level(self, text, uri, stack):
@@ -1420,6 +1424,10 @@ class _Number(object):
         cur = c.node
         frm = self.frm
         level = self.level
+        if cur.kind in ('root', 'namespace'):
+            # read literally the default count pattern matches the root node
+            # itself (giving 1); no pattern syntax can express that
+            raise XSLTUnsupported('xsl:number with the root node / a namespace node as current node')
         if frm is not None and frm.matches(st, cur, c.vars):
             raise XSLTUnsupported('xsl:number: the current node matches the from pattern '
                                   '(ancestor / ancestor-or-self reading)')
